@@ -419,6 +419,11 @@ fn analyze_inner(view: &View, cfg: &Cfg, script: &Script, quirks: Quirks, a: &mu
     if a.folded {
         // the rebuilt URI must be representable by http::Uri (C15); beyond that only totality applies
         let approx = a.cpath.as_ref().unwrap().len() + 1 + canon_query(&merged).len();
+        if approx >= 66_000 {
+            // far beyond what a request target can hold (65 534 bytes): the merged query cannot be represented, a
+            // query-string defect of the request (400), not an internal failure
+            return rej(Stage::Query, Kind::MalformedQueryString, Discr::Has(""));
+        }
         if approx > 60_000 {
             return dc(Stage::Query, "folded URI too long for http::Uri");
         }
